@@ -114,7 +114,7 @@ pub fn make_token(r: &mut Rng, claims: &Value, marks: &[TPath], bound: bool, use
 
 pub fn generate(thorough: bool, seed: u64, em: &mut Emitter) {
     super::c06::generate_sibling_names(seed, em);
-    generate_large(seed, if thorough { 40 } else { 8 }, false, em);
+    generate_large(seed, if thorough { 45 } else { 9 }, false, em);
     let mut r = Rng::new(seed ^ 0xC02);
     let n = if thorough { 30_000 } else { 2_000 };
     for i in 0..n {
